@@ -369,4 +369,14 @@ EXPLANATION = EXPLANATION + (" (R7) the loop that produces every handler event c
                              "per-client try/except that only logs, uncontained calls of the loop are on the closed non-raising list (shared C11.R2, C11.R3) - a dead "
                              "server thread delivers no further message and never runs the shutdown sweep that owes each client its disconnect.")
 
-RULES = [("C10.R1", r1), ("C10.R2", r2), ("C10.R3", r3), ("C10.R4", r4), ("C10.R5", r_enum), ("C10.R6", r6), ("C10.R7", r_shared_r7)]
+def r_shared_r8(ctx):
+    """the server loop admits packet types per pool (shared C01.R6): a hello from a connected address goes to the connected session - a second handshake under the same address would replace the pool entry without a disconnect for the client that had its connect"""
+    from . import c01 as _m
+    from .c02 import _Sub
+    for _f in ['r6']:
+        getattr(_m, _f)(_Sub(ctx, "C10.R8"))
+
+
+EXPLANATION = EXPLANATION + ' (R8) the server loop gates packet types per pool (shared C01.R6): a datagram from a connected address always goes to the connected session, so a pool entry is never replaced by a new handshake without the disconnect event of the old client.'
+
+RULES = [("C10.R1", r1), ("C10.R2", r2), ("C10.R3", r3), ("C10.R4", r4), ("C10.R5", r_enum), ("C10.R6", r6), ("C10.R7", r_shared_r7), ("C10.R8", r_shared_r8)]
